@@ -3709,6 +3709,36 @@ impl Machine {
                     }
                     Instruction::IndexingCode(indexing_lines) => {
                         match &indexing_lines[self.machine_st.oip as usize] {
+                            IndexingLine::Indexing(instr) if self.machine_st.oip > 0 => {
+                                // a first entry starts at line 0, so this is a retry, and the
+                                // choice line the choice point was walking has been moved behind
+                                // a switch created in its place (internalize_constant /
+                                // internalize_structure in indexing.rs). The switch's first
+                                // entry is the line that used to be here.
+                                let moved = match instr {
+                                    IndexingInstruction::SwitchOnConstant(hm) => {
+                                        hm.get_index(0).map(|(_, ptr)| *ptr)
+                                    }
+                                    IndexingInstruction::SwitchOnStructure(hm) => {
+                                        hm.get_index(0).map(|(_, ptr)| *ptr)
+                                    }
+                                    _ => None,
+                                };
+
+                                match moved {
+                                    Some(IndexingCodePtr::Internal(o)) => {
+                                        self.machine_st.oip += o as u32;
+
+                                        let b = self.machine_st.b;
+                                        self.machine_st
+                                            .stack
+                                            .index_or_frame_mut(b)
+                                            .prelude
+                                            .boip = self.machine_st.oip;
+                                    }
+                                    _ => unreachable!(),
+                                }
+                            }
                             IndexingLine::Indexing(_) => {
                                 self.execute_switch_on_term();
 
